@@ -210,6 +210,53 @@ func wantSet(c core.Case) map[string]bool {
 
 func sameAny(a, b any) bool { return reflect.DeepEqual(core.Norm(a), core.Norm(b)) }
 
+// diffPaths names the accessor paths (indices stripped) on which two snapshots differ (diagnostics only).
+func diffPaths(a, b any) []any {
+	set := map[string]bool{}
+	var walk func(x, y any, path string)
+	walk = func(x, y any, path string) {
+		switch xv := x.(type) {
+		case map[string]any:
+			yv, ok := y.(map[string]any)
+			if !ok {
+				set[path] = true
+				return
+			}
+			for k := range xv {
+				if _, ok := yv[k]; !ok {
+					set[path+"."+k] = true
+				} else {
+					walk(xv[k], yv[k], path+"."+k)
+				}
+			}
+		case []any:
+			yv, ok := y.([]any)
+			if !ok || len(xv) != len(yv) {
+				set[path+"(len)"] = true
+				return
+			}
+			for i := range xv {
+				walk(xv[i], yv[i], path+"[]")
+			}
+		default:
+			if !reflect.DeepEqual(x, y) {
+				set[path] = true
+			}
+		}
+	}
+	walk(core.Norm(a), core.Norm(b), "")
+	var out []string
+	for k := range set {
+		out = append(out, strings.TrimPrefix(k, "."))
+	}
+	sort.Strings(out)
+	res := make([]any, len(out))
+	for i, k := range out {
+		res[i] = k
+	}
+	return res
+}
+
 // run pushes one descriptor proto through the code under test.  ref is Abstract(p) (with option payloads);
 // d0, when non-nil, is the descriptor that generated code registered for the same file.
 func run(out core.Case, p *descriptorpb.FileDescriptorProto, ref *AFile, allow bool, r resolver, want map[string]bool, d0 protoreflect.FileDescriptor) {
@@ -241,7 +288,7 @@ func run(out core.Case, p *descriptorpb.FileDescriptorProto, ref *AFile, allow b
 			out["snap"] = s0Any
 		}
 		if !sameAny(s0Any, snapAny) {
-			out["nsnap"] = snapAny // diagnostics
+			out["ndiff"] = diffPaths(s0Any, snapAny) // diagnostics
 		}
 	} else if want["snap"] {
 		out["snap"] = snapAny
@@ -283,11 +330,14 @@ func run(out core.Case, p *descriptorpb.FileDescriptorProto, ref *AFile, allow b
 					return
 				}
 				rt = sameAny(ToAny(s2), snapAny)
+				if !rt {
+					out["rtdiff"] = diffPaths(ToAny(s2), snapAny)
+				}
 			}
 			out["rt"] = rt
 		}
 	}
-	if want["bsnap"] || want["bsame"] || want["blazy"] {
+	if (want["bsnap"] || want["bsame"] || want["blazy"]) && builderDomain(ref) {
 		bd, pan := build(p, r)
 		if pan != "" {
 			out["panic"] = "filedesc.Builder: " + pan
@@ -303,6 +353,9 @@ func run(out core.Case, p *descriptorpb.FileDescriptorProto, ref *AFile, allow b
 			out["bsnap"] = sbAny
 		}
 		out["bsame"] = sameAny(sbAny, snapAny)
+		if !sameAny(sbAny, snapAny) {
+			out["bdiff"] = diffPaths(sbAny, snapAny)
+		}
 		if want["blazy"] {
 			bd2, pan := build(p, r)
 			if pan != "" {
@@ -317,6 +370,32 @@ func run(out core.Case, p *descriptorpb.FileDescriptorProto, ref *AFile, allow b
 			out["blazy"] = sameAny(ToAny(sr), sbAny)
 		}
 	}
+}
+
+// builderDomain: filedesc.Builder is specified for descriptor protos as protoc writes them -- every type reference
+// fully qualified and every field with an explicit type.
+func builderDomain(f *AFile) bool {
+	abs := func(s string) bool { return s == "" || strings.HasPrefix(s, ".") }
+	for _, m := range f.Msgs {
+		for _, x := range m.Fields {
+			if !abs(x.TName) || x.Type == 0 || x.Label == 0 {
+				return false
+			}
+		}
+	}
+	for _, x := range f.Exts {
+		if !abs(x.TName) || !abs(x.Extendee) || x.Type == 0 || x.Label == 0 {
+			return false
+		}
+	}
+	for _, s := range f.Svcs {
+		for _, m := range s.Methods {
+			if !abs(m.In) || !abs(m.Out) {
+				return false
+			}
+		}
+	}
+	return true
 }
 
 // errClass keeps error texts out of the comparison but available for diagnosis.
